@@ -347,6 +347,8 @@ def mat(v):
         return iter([mat(x) for x in v[1]])  # a lazy, one-shot sequence without len()
     if t == "l":
         return [mat(x) for x in v[1]]
+    if t == "inf":
+        return float("inf") if v[1] > 0 else float("-inf")
     if t == "x":
         return SPECIALS[v[1]]
     raise ValueError(f"bad value descriptor {v!r}")
